@@ -271,6 +271,11 @@ func runGenerated(c *core.Case) {
 	f := &ptypes.Filler{R: c.Rng.Fork(2), Big: c.Index%50 == 0}
 	for k := 0; k < 3; k++ {
 		v := f.NewValue(t)
+		if k > 0 && c.Index%3 == 0 {
+			// history: a decode of the same type that fails half way (a truncated or corrupted
+			// encoding of another value) must leave nothing behind for the round trip that follows
+			poison(c, t, f.NewValue(t))
+		}
 		if !check(c, "generated", v) {
 			break
 		}
@@ -280,6 +285,32 @@ func runGenerated(c *core.Case) {
 	feature(c, t)
 	c.Distinct(core.HashString(t.String()), t.NumField() > 0)
 	c.Sample(len(t.String())/80, map[string]any{"sub": "generated", "type": ptypes.TypeString(t)})
+}
+
+// poison runs Unmarshal on damaged encodings of w: cut at three places and with the last byte
+// of the payload replaced; the results are ignored.
+func poison(c *core.Case, t reflect.Type, w reflect.Value) {
+	b, err := proto.Marshal(w.Interface())
+	if err != nil || len(b) < 2 {
+		return
+	}
+	r := c.Rng
+	for k := 0; k < 4; k++ {
+		d := append([]byte(nil), b...)
+		switch k {
+		case 0:
+			d = d[:len(d)-1]
+		case 1:
+			d = d[:r.Range(1, len(d)-1)]
+		case 2:
+			d[len(d)-1] ^= 0xFF
+			d = append(d, 0x80)
+		default:
+			d[r.Intn(len(d))] = 0xFF
+		}
+		core.Guard(func() { proto.Unmarshal(d, reflect.New(t).Interface()) })
+		c.Count("history.failed-decodes-before-round-trip", 1)
+	}
 }
 
 func feature(c *core.Case, t reflect.Type) {
@@ -398,7 +429,16 @@ func runTopLevel(c *core.Case) {
 		v := f.NewValue(t)
 		check(c, "top-level", v)
 	}
-	c.Distinct(7, true)
+	// declared recursive and mutually recursive message types, unexported fields in between
+	for _, t := range ptypes.RecLibrary {
+		for k := 0; k < 3; k++ {
+			v := f.NewValue(t)
+			if !check(c, "declared|"+t.Name(), v) {
+				break
+			}
+		}
+	}
+	c.Distinct(uint64(7+c.Index), true)
 }
 
 // emptyMessagePointer: a non-nil pointer to a struct that encodes to zero bytes cannot be told
@@ -481,7 +521,7 @@ func init() {
 	core.Register(&core.Monitor{
 		Prop:      "C03",
 		Witnesses: map[string]func(*core.Case){"empty-message-pointer": witnessEmptyMsgPtr},
-		Rule:      "generated: a message type built at run time (0-40 fields; bool/int/int32/int64/uint/uint32/uint64/float32/float64/string/[]byte/byte arrays; nested and pointer-to structs and scalars (non-nil pointees; pointer depth <= 2); repeated fields of scalars, strings, bytes, structs and non-nil struct pointers with 0,1,9,10,11,20,21,40 and occasionally thousands of elements; maps of every documented key kind to scalars, bytes, structs and struct pointers; protobuf tags with field numbers at the 15/16, 2047/2048, 16383/16384, 65535 boundaries and beyond, zigzag and fixed variants; unexported fields; Message / gogo-style custom types) x 3 boundary-biased values + the zero value: Marshal must not fail, Size == len(Marshal), Marshal deterministic and identical through a pointer for map-free types, Unmarshal(Marshal(v)) equal to v (exported fields, nil == empty, floats by == or both NaN). field-matrix: 100+ field-type shapes x 6 field numbers x tag variants x 12 values in one- and two-field messages. A failure is localised to the single (nested) field that still fails. Distinct by type string. Outside the claimed domain and not generated: pointer-to-slice/map fields, nil elements in repeated pointer fields, pointers to zero-size structs, &nil double pointers.",
+		Rule:      "generated (every third case with a history: four decodes of damaged encodings of another value of the type before the round trip): a message type built at run time (0-40 fields; bool/int/int32/int64/uint/uint32/uint64/float32/float64/string/[]byte/byte arrays; nested and pointer-to structs and scalars (non-nil pointees; pointer depth <= 2); repeated fields of scalars, strings, bytes, structs and non-nil struct pointers with 0,1,9,10,11,20,21,40 and occasionally thousands of elements; maps of every documented key kind to scalars, bytes, structs and struct pointers; protobuf tags with field numbers at the 15/16, 2047/2048, 16383/16384, 65535 boundaries and beyond, zigzag and fixed variants; unexported fields; Message / gogo-style custom types) x 3 boundary-biased values + the zero value: Marshal must not fail, Size == len(Marshal), Marshal deterministic and identical through a pointer for map-free types, Unmarshal(Marshal(v)) equal to v (exported fields, nil == empty, floats by == or both NaN). field-matrix: 100+ field-type shapes x 6 field numbers x tag variants x 12 values in one- and two-field messages. A failure is localised to the single (nested) field that still fails. Distinct by type string. Outside the claimed domain and not generated: pointer-to-slice/map fields, nil elements in repeated pointer fields, pointers to zero-size structs, &nil double pointers.",
 		Trusted:   []string{"the custom deep-equal in gen/ptypes (nil == empty, NaN == NaN)", "hand-written Message / gogo implementations in gen/ptypes are correct wrappers"},
 		Subs: []core.Sub{
 			{Name: "generated", N: core.Const(30000, 1000000), Run: runGenerated},
@@ -491,7 +531,7 @@ func init() {
 				}
 				return len(matrixTypes) * 12
 			}, Run: runMatrix},
-			{Name: "top-level", N: core.Const(20, 200), Run: runTopLevel},
+			{Name: "top-level", N: core.Const(200, 4000), Run: runTopLevel},
 			{Name: "empty-message-pointer", N: core.Const(1, 1), Run: func(c *core.Case) {
 				save := ptypes.NilEquivalent
 				ptypes.NilEquivalent = nil
